@@ -177,13 +177,25 @@ func (e *Engine) VerifyFunc(key string, small bool) *FnCtx {
 				}
 				post := exitEnv.tr(c.E)
 				goal := post.T
+				// the other call's arguments are members of the iterated collection too (as of this call's entry)
+				otherMember := "true"
+				if fr.iterated != "" && len(fn.Params) == 2 {
+					o0, o1 := entryEnv.names[fn.Params[0].Name()].T, entryEnv.names[fn.Params[1].Name()].T
+					switch ctr.IterKind {
+					case "goset":
+						otherMember = fmt.Sprintf("(select (select %s %s) %s)", fc.lookup(entry, "G:gsmem"), fr.iterated, o1)
+					case "syncmap":
+						smv, smd := fc.syncMapComps()
+						otherMember = fmt.Sprintf("(and (select (select %s %s) %s) (= %s (select (select %s %s) %s)))", fc.lookup(entry, smd), fr.iterated, o0, o1, fc.lookup(entry, smv), fr.iterated, o0)
+					}
+				}
 				if underTrue {
 					if len(r.results) == 1 {
 						goal = fmt.Sprintf("(=> %s %s)", r.results[0], post.T)
 					}
 				} else {
 					pre := entryEnv.tr(c.E)
-					goal = fmt.Sprintf("(=> %s %s)", pre.T, post.T)
+					goal = fmt.Sprintf("(=> (and %s %s) %s)", otherMember, pre.T, post.T)
 				}
 				fc.obls = append(fc.obls, &Obl{Func: key, Kind: kind, Label: c.Label, Site: site, NFacts: len(fc.facts), Path: r.reach, Goal: goal, Using: c.Using, Text: c.Text})
 			}
